@@ -2,25 +2,32 @@
 SPEC = dict(
     title="Reads never modify data; databases change only through the log",
     pkg="./store", files=["store/c17_verif_test.go"],
-    rule="10 hand-picked + 70 (quick) / 1000 (thorough) generated requests of 1-3 texts, each text 0-4 SQL statements (read-only head + writing tail, writing head, "
-         "read-only only, prepare error, empty; SELECT, EXPLAIN, PRAGMA read/write, ATTACH, CTE write, RETURNING, CREATE TABLE, temp table, no-op UPDATE; comments and "
-         "semicolons in literals/identifiers between statements), each request sent to 14 endpoints: db.Query / db.Request / db.Execute on the node's database object and "
-         "Store.Query and Store.Request at levels none, weak, linearizable, strong, auto, and Store.Execute, on a real single-node Store; "
-         "a case is non-trivial when a text contains a writing statement that is not its first statement, or ATTACH / temp table / PRAGMA; distinct by JSON of the input",
+    rule="every case is a HISTORY on one live single-node Store, each operation observed: 19 hand-picked + 110 (quick) / 2500 (thorough) generated histories of 5-12 operations: "
+         "probes (a request of 1-3 texts, each 0-4 SQL statements: read-only head + writing tail, writing head, read-only only, prepare error, empty; SELECT, EXPLAIN, PRAGMA, ATTACH, CTE write, "
+         "RETURNING, CREATE TABLE, temp table, no-op UPDATE, comments/semicolons in literals) at one of 14 endpoints (db.Query/Request/Execute, Store.Query and Store.Request at none/weak/linearizable/strong/auto, Store.Execute); "
+         "Store.Backup of every format x vacuum x compress into a fresh file, a pre-filled file (VACUUM/open fails), a buffer, a writer failing after 100 bytes or at once; Store.Snapshot; "
+         "breaking-PRAGMA attempts in 11 spellings through Store.Query/Request/Execute (must be refused); and query-endpoint requests that ATTACH the node's OWN database file under another name "
+         "(plain path and file: URI with mode=rwc) and INSERT/DELETE/CREATE TABLE/PRAGMA user_version through it, plus temp-schema writes, at every level. "
+         "A history is non-trivial when a read follows a failing/refused operation, or a text has a writing statement that is not its first, or ATTACH/temp/PRAGMA; distinct by JSON of the input",
     trusted=["SQLite: a mode=ro + query_only connection changes nothing (`ro_pool_inert`), a statement sqlite3_stmt_readonly calls read-only changes nothing (`honest`) - premises of the theorems; "
              "the driver checks both on every generated statement (flag asked of the vendored driver directly, effect measured by running the statement alone on a scratch database)",
              "vendored go-sqlite3: Query steps only the LAST statement of a multi-statement text, Exec all of them (read in sqlite3.go, modelled as q_text / e_text, confirmed by the differential run)",
              "contents = rows of t, existence of tables u1..u3, user_version; observed from a separate read-only connection together with PRAGMA data_version",
+             "the read-only pool's query_only flag is read back after every operation through the pool itself (db.Query of `PRAGMA query_only`, three times; database/sql hands out the connection released last); "
+             "connections idle deeper in the pool are not inspected",
+             "the breaking-PRAGMA guard (C15, fixed in 82eb221) lets no query_only-setting statement reach SQLite: footprint RoTexts carries that assumption; the driver sends such attempts and checks the flag afterwards",
              "single-node cluster: 'every node' is the node that applies the entry (CommandProcessor.Process is the same code on every node); followers/non-voters and leader changes are not run",
              "raft, snapshot install and boot are events of the model (EvApply/EvSnapshot/EvBoot), not run by the driver"],
     assumptions=["no user-defined SQL functions or virtual tables with side effects are loaded", "PRAGMAs that change rqlite-critical settings (query_only, journal_mode ...) are C15's subject and not generated"],
-    level_text="Proved for every request, level, contents and event sequence: the query endpoint never changes any database, whether served locally or logged and applied (C17_query_endpoint_never_writes); "
+    level_text="Proved for ANY history of API calls on a node with a pristine pool (C17_ro_pool_invariant: every operation, wherever it stops, returns its pooled read-only connection with query_only set; "
+               "C17_history_reads_never_write / C17_history_step_inert: queries at every level, locally served unified requests, refused requests, backups of every format and snapshots leave the contents alone; "
+               "C17_change_needs_log_entry: a Store operation that did not grow the log did not change the contents). Proved for every request, level, contents and event sequence: the query endpoint never changes any database, whether served locally or logged and applied (C17_query_endpoint_never_writes); "
                "a unified request served without the log never writes (C17_unified_local_never_writes_partial); a node's database stays the same over any sequence of client calls, loads and "
                "log appends - it changes only by applying a log entry, installing a snapshot or boot, and a load is a log entry (C17_db_changes_only_via_log_snapshot_boot_load, C17_load_is_logged). "
                "The unified-endpoint half of the property is FALSE for the pinned code and recorded as an open finding: C17_unified_ro_never_writes_refuted exhibits 'SELECT 1; DELETE ...' "
                "(classified by its first statement, executed by its last, on the read-write connection, on every node when logged); C17_unified_ro_never_writes_partial proves it for texts whose last statement is read-only (all single-statement texts).",
-    level_note="Model = q_text/e_text (driver), classify (StmtReadOnlyWithConn), db_query/db_execute/db_request, RORWCount, Store.Query/Request/Execute routing per level, CommandProcessor.Process, cluster events; "
-               "tie = differential run (final contents, whether the log grew, Store.Request's read-write count) on 14 endpoints per request + Go oracle on contents and data_version.",
+    level_note="Model = q_text/e_text (driver), classify (StmtReadOnlyWithConn), db_query/db_execute/db_request, RORWCount, Store.Query/Request/Execute routing per level, CommandProcessor.Process, cluster events; histories: per-operation footprint on the read-only pool (ro_footprint), hstep/hrun over (contents, pool flag); "
+               "tie = differential run of every step of every history (contents after, whether the log grew, Store.Request's read-write count, pool flag) + Go oracle per step on contents, data_version, log growth and the pool flag.",
     technique="Coq proofs over all requests/event sequences with SQLite's guarantees as premises + refutation witness + differential run on a live single-node Store",
     design_ref="6/C17",
     timeout_quick=600, timeout_thorough=7200,
